@@ -1786,6 +1786,40 @@ def c07i(F, R):
             R.bad(key, msg, where)
     R.note(f"cursor analysis: {len(cur.sites)} consume sites (with calling context), {len(outs)} exit states of next(); reviewed summary used for: {sorted(cur.used_summaries)}")
 
+@rule("C09", "C09.o.an-unterminated-literal-ends-at-its-last-character", floor=2)
+def c09o(F, R):
+    """the cursor analysis, for the end of a range: a string that meets the end of its line (or of the input) is reported from its quote to its last character.
+    The lexer remembers that position in a local as it goes; where the error is built, the remembered character is the one just before the cursor
+    (offset -1) on every path - remembered before an escape sequence is stepped over, it is the backslash, and the range stops short of `\t` / `\u00e9`"""
+    from .lexcursor import Cursor, Unextractable
+    summ = _unicode_summary(F)
+    if isinstance(summ, str):
+        R.bad("unicode_code|summary", summ, F.fn(LEXER + "::unicode_code")["sp"])
+        return
+    nxt = [F.method(LEXER, "next", trait="Iterator")]
+    cur = Cursor(F, summaries={"unicode_code": summ})
+    try:
+        cur.analyse(nxt[0])
+    except Unextractable as ex:
+        R.bad("unextractable", f"UNEXTRACTABLE: the lexer uses a construct the cursor analysis does not model: {ex}", F.fn(nxt[0])["sp"])
+        return
+    n = 0
+    for key, (where, seen) in sorted(cur.pos_uses.items()):
+        fn_, what, nm = key.split("|")
+        if what not in ("Newline", "Unclosed"):
+            continue
+        n += 1
+        offs = {o for o, k0 in seen}
+        if offs == {-1}:
+            R.ok(key, detail=f"`{nm}` is the character just before the cursor wherever the {what} error is built", where=where)
+        elif None in offs:
+            R.bad(key, f"the {what} error of {fn_} ends at `{nm}`, which on some path is not known to be the last character stepped over (it was taken before a call that moves the cursor - an escape sequence - or is not a position taken by get_pos): the reported range stops short of the text it is about (`.asciz \"ends in tab\\t` is reported up to the backslash)", where)
+        else:
+            R.bad(key, f"the {what} error of {fn_} ends at `{nm}`, the character at offset {sorted(offs)} from the cursor instead of the one just before it", where)
+    if n == 0:
+        raise Anchor("no unterminated-string error built from a remembered position")
+
+
 @rule("C06", "C06.x.lexer-loops-advance", floor=4)
 def c06x(F, R):
     """the cursor analysis once more, for termination: every path that goes round a scanning loop of the lexer (`while let Some(c) = self.current()`, `loop { .. }`) has stepped over at least one character since the loop head. The loops test nothing but the characters at the cursor, so a path that returns to the head with the cursor where it was takes the same path again: `if c == '\n' { continue }` in place of `break` hangs the lexer on the first line break after a bad escape"""
